@@ -282,7 +282,13 @@ def gen_route(rng):
             host = rng.choice(["admin", "api", "a", "ab", "b", "cab", "www", "a.b", "a.b.c"]) + "." + ".".join(base)
     else:
         host = "".join(rng.choice(HOST_CHARS) for _ in range(rng.choice([0, 1, 3, 5, 8])))
-    return {"op": "route", "guards": guards, "host": host}
+    case = {"op": "route", "guards": guards, "host": host}
+    # a third of the Host headers carry a port (`pavex.dev:8080`, `pavex.dev.:443`): the trailing dot then is not the last
+    # byte of the header (seeded change C20-4 stripped the dot from the raw header). Only for hosts made of host
+    # characters, so that the header stays a valid authority and `host` is what Authority::host() returns.
+    if host and all(ch.isalnum() or ch in "-." for ch in host) and rng.random() < 0.33:
+        case["header"] = host + ":" + rng.choice(["80", "443", "8080", "1"])
+    return case
 
 
 def mutate_host(rng, h):
@@ -308,6 +314,7 @@ def mutate(rng, c):
         c["s"] = sanitize(mutate_str(rng, c["s"]))
     else:
         if rng.random() < 0.5:
+            c.pop("header", None)
             c["host"] = c["host"] + rng.choice([".", "..", ""]) if rng.random() < 0.5 else mutate_host(rng, c["host"])
         else:
             gs = list(c["guards"])
